@@ -155,6 +155,23 @@ def run(prog, rep, tier):
         r3.ok("serve_inner: every return is dominated by rpki_drop_all (%d return block(s))" % len(rets))
     else:
         r3.fail(prog.name(sk), "exit-without-drop", "serve_inner can return without rpki_drop_all: a dead session's VRPs stay installed", fv.loc())
+    # the purge itself: RpkiTable::drop_source walks each entry list with remove-while-indexing
+    from ..util import remove_while_indexing
+    dsk = prog.one(r"rustybgp_table::RpkiTable::drop_source")
+    dsv = view(prog, dsk)
+    r3.analysed(dsv.name)
+    sites = remove_while_indexing(dsv)
+    if not sites:
+        r3.unanalysable("RpkiTable::drop_source: no remove-in-loop site recognised (purge idiom changed)", dsv.loc())
+    for rb, il, bad in sites:
+        if bad is None:
+            r3.ok("drop_source: after Vec::remove(i) the index is not advanced (the next element has moved into slot i)")
+        else:
+            r3.fail(dsv.name, "remove-then-advance", "drop_source advances the index (line %d) on the path that has just removed element i: the element that moved into slot i is skipped, "
+                    "so every second adjacent VRP of the dropped cache survives" % dsv.line(bad), dsv.loc(rb))
+    # VRPs of one cache are untouched by another's: every mutator identifies a VRP by (cache, max-length, AS)
+    from . import c12 as _c12
+    _c12.check_vrp_identity(prog, r3)
     tk = prog.one(r"rustybgpd::rpki::RpkiClient::try_connect")
     raced = []
     for kk in prog.with_closures(tk):
